@@ -17,6 +17,7 @@ RULE = ("series on G(8,k), k=4..5/6 (y in V^k for k<=4, spanning set beyond, aff
 ASSUMPTIONS = ["'linear' is only claimed inside the data range (numpy clamps outside); affine reproduction is judged inside the range",
                "scipy CubicSpline / splrep are trusted; 'to rounding' = 1e-9 relative"]
 ANCHORS = {"process.py": [(32, 45), (80, 87)], "weaver.py": [(413, 422)]}
+FORMS_HARNESSES = "all"
 EXPLANATION = "pointwise definitions evaluated on every element of a bounded lattice"
 METHODS = ["linear", "constant", "cubic", "spline"]
 POISON = {"linear": {"left": -77.0, "right": 55.0}, "constant": {"left": -77.0}, "cubic": {"bc_type": "natural", "extrapolate": False},
@@ -107,11 +108,21 @@ def _long_case(case):
     else:
         y = A.long_values(m, yk)
     new = [x[0] - 0.25 * (P - j) for j in range(P)]
-    for i in range(m - 1):
-        new.append(x[i])
-        for d in range(1, dens):
-            new.append(x[i] + (x[i + 1] - x[i]) * d / dens)
-    new.append(x[-1])
+    if dens == 0:
+        # a SHORT new grid on a long series: the samples at the interesting positions and the midpoints behind them
+        for i in A.interesting_indices(m, dense_to=12, limit=case.get("limit", 16)):
+            new.append(x[i])
+            if i + 1 < m:
+                new.append((x[i] + x[i + 1]) / 2)
+        if new[-1] != x[-1]:
+            new.append(x[-1])
+        new = sorted(set(new))
+    else:
+        for i in range(m - 1):
+            new.append(x[i])
+            for d in range(1, dens):
+                new.append(x[i] + (x[i + 1] - x[i]) * d / dens)
+        new.append(x[-1])
     new += [x[-1] + 0.25 * (j + 1) for j in range(R)]
     return {"x": x, "y": y, "new_x": new, "method": case["method"], "affine": aff}
 
@@ -240,19 +251,27 @@ def harnesses(tier, seed):
                 judge(ctx, check_interp, {"x": x, "y": list(y), "new_x": ng, "method": method, "affine": None,
                                           "grid_type": ("float-array", "int-array", "int-list")[gi % 3]}, bulk=True)
 
-    long_sizes = A.sizes(20 if quick else 40, 1100 if quick else 70000, minimum=4)
-    pad_sizes = [0, 1] + [v for v in A.sizes(0, 1100 if quick else 70000) if v >= 15]
+    long_sizes = A.sizes(20 if quick else 40, 17000 if quick else 70000, minimum=4)
+    dense_cap = 1100 if quick else 9000     # a new grid denser than the series: quadratic reference, smaller cap
+    pad_sizes = [0, 1] + [v for v in A.sizes(0, 1100 if quick else 17000) if v >= 15]
 
     def long_body(ctx):
         """long series and long new grids: P new points left of the data, `density` points per interval (the samples
         among them), R points beyond; sizes cross powers of two and every integer constant of the code"""
         method = ctx.choose(METHODS, "method")
-        shape = ctx.choose(["series-long", "left-pad", "right-pad", "both-pads"], "shape")
+        shape = ctx.choose(["series-long", "left-pad", "right-pad", "both-pads", "series-long-sparse-grid"], "shape")
         yk = ctx.choose(["saw", "affine"], "y")
         gk = ctx.choose(["uniform", "gaps"], "grid")
-        if shape == "series-long":
+        if shape == "series-long-sparse-grid":
             for m in long_sizes:
-                if method in ("cubic", "spline") and m > 3000:
+                if m < 8 or (method in ("cubic", "spline") and m > 3000):
+                    continue
+                for (P, R) in ((0, 0), (1, 2)):
+                    judge(ctx, check_interp_long, {"len": m, "grid": gk, "left": P, "right": R, "density": 0, "y": yk, "method": method},
+                          bulk=True, nontrivial=True)
+        elif shape == "series-long":
+            for m in long_sizes:
+                if (method in ("cubic", "spline") and m > 3000) or m > dense_cap:
                     continue
                 judge(ctx, check_interp_long, {"len": m, "grid": gk, "left": 1, "right": 1, "density": 2 if m > 40 else 4, "y": yk, "method": method},
                       bulk=True, nontrivial=True)
